@@ -19,6 +19,8 @@ pub enum Op {
     AddTrack(u64, bool),
     /// add(id, variant)
     Add(u64, u8),
+    /// add(id, ..) whose attribute update (0) or observation optimisation (1) fails
+    AddFault(u64, u8),
     Fetch(Vec<u64>),
     /// merge_owned(dest, src, variant): variants = (classes, remove, history)
     MergeOwned(u64, u64, u8),
@@ -62,6 +64,11 @@ pub fn alphabet() -> Vec<Op> {
     for i in 1..=3u64 {
         for v in 0..5u8 {
             a.push(Op::Add(i, v));
+        }
+    }
+    for i in 1..=3u64 {
+        for w in 0..2u8 {
+            a.push(Op::AddFault(i, w));
         }
     }
     for i in 1..=3u64 {
@@ -174,6 +181,21 @@ fn step(store: &mut HStore, model: &mut Model, op: &Op, shards: usize) -> Result
                 if notes.len() as u32 != n {
                     return bad("add/missing-id/notifications", format!("{} notifications, the builder path sends {n}", notes.len()));
                 }
+            }
+        }
+        Op::AddFault(id, which) => {
+            let (cls, attr, f, upd) = add_variant(if *which == 0 { 1 } else { 0 });
+            arm(if *which == 0 { FaultPlan { fail_apply: true, ..Default::default() } } else { FaultPlan { fail_optimize_kth: Some(1), ..Default::default() } });
+            let r = store.add(*id, cls, attr, f.as_ref().map(|x| feat(x)), upd.clone());
+            disarm();
+            let notes = take_notifications();
+            if r.is_ok() {
+                return bad("add/ok-despite-callback-error", format!("add({id}, ..) = Ok although the {} fails", if *which == 0 { "attribute update" } else { "observation optimisation" }));
+            }
+            // the model is unchanged: an existing track is left as it was; a missing one is NOT created (building
+            // it externally fails, so there is nothing to insert) - the store dump is compared after the step
+            if model.contains_key(id) && !notes.is_empty() {
+                return bad("add/notification-on-failure", format!("{notes:?}"));
             }
         }
         Op::Fetch(ids) => {
